@@ -5,7 +5,7 @@ from asyncfix import FMsg
 from asyncfix.errors import FIXConnectionError
 from asyncfix.message import FIXMessage, MessageDirection
 from vlib.hyp import run_given
-from vlib.reffix import ref_check_frame, ref_get, ref_parse
+from vlib.reffix import ref_check_frame, ref_get, ref_parse, ref_split_stream
 from vlib.runner import derive_seed
 from vlib.sess import Bench
 
@@ -17,6 +17,8 @@ TASKSETS = [
     ("A", "R:logon"), ("A", "R:resend2"), ("B", "R:appmsg"),
     # initiator whose application sends its first Logon while another task sends Logout / an application message
     ("I:logon", "I:logout"), ("I:logon", "A"), ("I:logon", "I:logout", "A"),
+    # a sender of one large frame (100 KB, beyond any transport buffer limit) next to ordinary senders
+    ("L", "A"), ("L", "H"),
 ]
 
 
@@ -25,12 +27,12 @@ def RULE(tier):
         "One real endpoint (acceptor; an initiator for the first-Logon task sets) whose suspension points are owned by the harness: every drain() under back-pressure (pause -> "
         "drain blocks; resume wakes ALL waiters FIFO in one sweep, as asyncio does) and every awaited application hook "
         "(should_replay, on_state_change, on_message, on_logon) is a gate opened by the scheduler. Task sets of 2-3 among: "
-        "application task A / B sending 2 messages each, the real reader task processing an injected ResendRequest over a "
+        "application task A / B sending 2 messages each, a task L sending one 100 KB frame, the real reader task processing an injected ResendRequest over a "
         "pre-filled journal (also two requests back to back), a TestRequest, a frame above the expected number, an application "
         "message, the first Logon, the heartbeat path (send_test_req), and an initiator application sending its first Logon while "
         "other tasks send Logout / application messages. EXHAUSTIVE depth-first enumeration of all choice "
         f"sequences (start a task / open gate k / pause / resume / reset the connection while senders wait in drain) up to {G[tier]} choices, each schedule re-executed from scratch and then "
-        "run to completion, plus Hypothesis-drawn longer schedules. Oracle on the bytes written, in wire order: new frames (no "
+        "run to completion, plus Hypothesis-drawn longer schedules. Oracle on the bytes written, in wire order: the concatenation of all writes is a sequence of well-formed frames; new frames (no "
         "PossDupFlag, not SequenceReset) carry distinct, strictly increasing MsgSeqNums; a PossDup frame repeats a number sent "
         "before with the same body; no task raised anything but FIXConnectionError (in particular no DuplicateSeqNoError); every "
         "new frame is journaled under its number byte for byte; live and stored next_num_out = highest new number + 1; a served "
@@ -90,10 +92,12 @@ class Sched:
         self.max_suspended = max(self.max_suspended, nblocked)
 
     async def _app(self, name, n=2):
+        if name == "L":
+            n = 1
         for i in range(n):
             self.payload += 1
             try:
-                await self.ep.send_msg(FIXMessage(FMsg.NEWORDERSINGLE, {11: f"{name}{i}", 58: f"new {name}{i}"}))
+                await self.ep.send_msg(FIXMessage(FMsg.NEWORDERSINGLE, {11: f"{name}{i}", 58: f"new {name}{i}" + ("x" * 100000 if name == "L" else "")}))
             except FIXConnectionError:
                 pass
             except ConnectionError:
@@ -114,7 +118,7 @@ class Sched:
     def start(self, name):
         self.unstarted.remove(name)
         b, ep = self.b, self.ep
-        if name in ("A", "B"):
+        if name in ("A", "B", "L"):
             self.tasks[name] = self.w.loop.create_task(self._app(name))
         elif name == "H":
             self.tasks[name] = self.w.loop.create_task(self._hb())
@@ -253,7 +257,13 @@ def execute(acc, tasks, schedule, origin, judge=True):
         # the reader task must have survived
         if s.ep._aio_task_socket_read.done():
             bad("reader-task-died", "socket_read_task ended")
-        frames = [fr for _, fr in s.writer.written]
+        # the wire is a byte stream: what counts is that the concatenation of all writes is a sequence of frames
+        # (an implementation may hand one frame to the transport in several writes)
+        writes = [fr for _, fr in s.writer.written]
+        frames, rest = ref_split_stream(b"".join(writes))
+        if rest:
+            bad("wire-malformed/stream", f"after {len(frames)} well-formed frames the byte stream continues with {rest[:120]!r} ({len(rest)} B), which is not a frame")
+            frames = [fr for fr in writes if not ref_check_frame(fr)]
         sent = {}
         last_new = 0
         for i, fr in enumerate(frames):
